@@ -30,10 +30,14 @@ type jbModel struct {
 	n         int
 	emitting  bool
 	ambiguous bool // after Clear(true): the start threshold may be the configured one or the default 50
-	minStart  int
-	head      uint16
-	everReady bool
-	lastSeq   uint16
+	// maybeStarted: during such a period the fill level has reached the lower of the two thresholds at some point, so playback has possibly
+	// started (and stays started when the level drops again)
+	maybeStarted bool
+	minStart     int
+	head         uint16
+	everReady    bool // mirrors playoutReady: the next packet pushed into an empty buffer does not re-anchor the playout head
+	started      bool // playback started at least once in this case (for the evidence classes)
+	lastSeq      uint16
 }
 
 func (m *jbModel) size() int {
@@ -102,10 +106,10 @@ func guard(t *rapid.T, what string, fn func()) {
 func TestJitterBufferModel(t *testing.T) {
 	rec := kit.NewRecorder("C18", "jitterbuffer-state-machine",
 		"rapid state machine over Push/Pop/PopAtSequence/PopAtTimestamp/Peek/PeekAtSequence/SetPlayoutHead/Clear on the exported "+
-			"JitterBuffer with minimum start count 1..60, each call under a watchdog; non-trivial = the sequence contains a duplicate push or "+
+			"JitterBuffer with minimum start count 1..260 (runs of up to 130 pushes in one step), each call under a watchdog; non-trivial = the sequence contains a duplicate push or "+
 			"a Clear followed by further operations, and playback started; distinct by operation trace")
 	rapid.Check(t, func(t *rapid.T) {
-		minStart := rapid.OneOf(rapid.IntRange(1, 6), rapid.IntRange(1, 6), rapid.IntRange(1, 60)).Draw(t, "minStart")
+		minStart := rapid.OneOf(rapid.IntRange(1, 6), rapid.IntRange(1, 6), rapid.IntRange(1, 60), rapid.IntRange(95, 260)).Draw(t, "minStart")
 		jb := jitterbuffer.New(jitterbuffer.WithMinimumPacketCount(uint16(minStart)))
 		m := &jbModel{info: map[*rtp.Packet]*pktInfo{}, live: map[uint16][]*rtp.Packet{}, minStart: minStart}
 		base := kit.U16Boundary().Draw(t, "base")
@@ -139,7 +143,7 @@ func TestJitterBufferModel(t *testing.T) {
 			sz := m.size()
 			if !m.ambiguous {
 				if sz >= m.minStart {
-					m.emitting, m.everReady = true, true
+					m.emitting, m.everReady, m.started = true, true, true
 				}
 
 				return
@@ -147,9 +151,10 @@ func TestJitterBufferModel(t *testing.T) {
 			// after Clear(true) either threshold is tolerated until the implementation shows its hand
 			lo, hi := min(m.minStart, 50), max(m.minStart, 50)
 			if sz >= hi {
-				m.emitting, m.everReady, m.ambiguous = true, true, false
+				m.emitting, m.everReady, m.ambiguous, m.started = true, true, false, true
+			} else if sz >= lo {
+				m.maybeStarted = true // resolved by the next pop's outcome
 			}
-			_ = lo // between lo and hi playback has possibly started; resolved by the next pop's outcome
 		}
 		// refusedOK: a pop was refused with ErrPopWhileBuffering - allowed?
 		popGate := func(what string, err error) (refused bool) {
@@ -161,11 +166,11 @@ func TestJitterBufferModel(t *testing.T) {
 
 				return false
 			}
-			if m.ambiguous && m.size() >= min(m.minStart, 50) {
+			if m.ambiguous && m.maybeStarted {
 				if isRefusal {
 					return true
 				}
-				m.emitting, m.ambiguous, m.everReady = true, false, true // implementation has started playback; allowed
+				m.emitting, m.ambiguous, m.everReady, m.started = true, false, true, true // implementation has started playback; allowed
 
 				return false
 			}
@@ -212,6 +217,25 @@ func TestJitterBufferModel(t *testing.T) {
 				updateState()
 				if wasAmbiguous {
 					resyncHead() // whether this push (re)set the head depends on the undecided start threshold
+				}
+				afterOp()
+			},
+			"pushRun": func(t *rapid.T) {
+				// a run of in-order pushes in one step, so that large start counts and fill levels above 100 are reached within a case
+				k := rapid.OneOf(rapid.IntRange(2, 30), rapid.IntRange(2, 30), rapid.IntRange(2, 12), rapid.IntRange(90, 130)).Draw(t, "runLength")
+				trace.U(9, uint64(k))
+				logOp("push run of %d from %d", k, base+uint16(nextOff)) //nolint:gosec
+				for i := 0; i < k; i++ {
+					seq := base + uint16(nextOff) //nolint:gosec
+					nextOff++
+					pk := &rtp.Packet{Header: rtp.Header{Version: 2, SequenceNumber: seq, Timestamp: uint32(seq/2) * 3000}, Payload: []byte{byte(m.n)}}
+					guard(t, fmt.Sprintf("Push(seq %d)", seq), func() { jb.Push(pk) })
+					wasAmbiguous := m.ambiguous
+					pushModel(pk)
+					updateState()
+					if wasAmbiguous {
+						resyncHead()
+					}
 				}
 				afterOp()
 			},
@@ -385,7 +409,9 @@ func TestJitterBufferModel(t *testing.T) {
 				m.live = map[uint16][]*rtp.Packet{}
 				if reset {
 					m.emitting = false
+					m.everReady = false // the next packet pushed starts a new playout sequence
 					m.ambiguous = m.minStart != 50
+					m.maybeStarted = false
 				}
 				resyncHead()
 				clearSeen = true
@@ -433,8 +459,8 @@ func TestJitterBufferModel(t *testing.T) {
 			afterOp()
 		}
 		t.Repeat(actions)
-		rec.Case(trace.Sum(), (sawDup || sawClearThenOp) && m.everReady,
-			[]string{cls("dup", sawDup), cls("clear-then-op", sawClearThenOp), cls("playback", m.everReady)},
+		rec.Case(trace.Sum(), (sawDup || sawClearThenOp) && m.started,
+			[]string{cls("dup", sawDup), cls("clear-then-op", sawClearThenOp), cls("playback", m.started)},
 			func() any {
 				return map[string]any{"min_start": minStart, "base_seq": base, "packets_pushed": m.n,
 					"duplicate_pushed": sawDup, "clear_followed_by_ops": sawClearThenOp, "playout_head_at_end": m.head, "ops": ops}
